@@ -514,9 +514,11 @@ def seam_case(ctx: Ctx, inp: dict, reqs: list, todo: list) -> None:
     search must still form the m×n grid (neighbouring cells share their corner coordinates exactly, coordinates within
     1e-8·extent of the ideal ones); if so the whole grid check is run on them."""
     m, n, step, ox, oy = inp["m"], inp["n"], inp["step"], inp["ox"], inp["oy"]
-    dims = seam_dims(inp)
-    ginp = {"kind": "grid", "alloc": dims, "occ": inp["occ"], "k": inp["k"], "ratio": inp["ratio"], "dif0": LOW,
-            "family": "decimal-alloc", "via": "alloc", "xs": [], "ys": []}
+    perm = inp.get("perm") or list(range(m * n))
+    rm = seam_dims(inp)
+    dims = [rm[t] for t in perm]                       # the allocation lists its cells in this order
+    ginp = {"kind": "grid", "alloc": dims, "order": perm, "occ": inp["occ"], "k": inp["k"], "ratio": inp["ratio"],
+            "dif0": LOW, "family": "decimal-alloc/" + inp.get("perm_kind", "rowmajor"), "via": "alloc", "xs": [], "ys": []}
     ip, cells = make_ip(dict(ginp, xs=list(range(m + 1)), ys=list(range(n + 1))))
     c = carrier_of(ip)
     scale = 1e-8 * max(m * step, n * step)
@@ -527,9 +529,9 @@ def seam_case(ctx: Ctx, inp: dict, reqs: list, todo: list) -> None:
                     for t, (i, j) in enumerate(cells))
     ctx.count("seam:" + ("consistent" if ok else "split"))
     if not ok:
-        ctx.case("seam", (m, n, step, ox, oy), nontrivial=True)
+        ctx.case("seam", (m, n, step, ox, oy, tuple(perm)), nontrivial=True)
         ctx.spec_fail("grid:select_box-float-seam", inp, {"xcoords": c.xcoords, "ycoords": c.ycoords,
-                                                          "expected_lines": [m + 1, n + 1]}, m * n, finding=SEAM_FINDING)
+                                                          "expected_lines": [m + 1, n + 1]}, m * n)
         return
     ginp["xs"], ginp["ys"] = list(c.xcoords), list(c.ycoords)
     grid_case(ctx, ginp, reqs, todo)
@@ -579,11 +581,38 @@ BIG_ORIGINS = [1e5, 250000.0, 1e6, 1e7, 123456.0, -1e5, -250000.0, -1e6, -1e7, 4
 ORIGINS = [0.0, 0.0, 1.0, -1.0, 2.5, -0.5, 7.0, 0.1, -3.25]
 
 
+def cell_order(rng, m: int, n: int, kind: str | None = None) -> tuple[str, list[int]]:
+    """a listing order of the m×n cells (indices into the row-major listing): as is, reversed (from the far corner
+    backwards), column-major, column-major from the far corner, shuffled."""
+    kind = kind or rng.choice(["rowmajor", "shuffled", "reversed", "colmajor", "colmajor-reversed", "shuffled"])
+    rm = list(range(m * n))
+    if kind == "reversed":
+        return kind, rm[::-1]
+    if kind in ("colmajor", "colmajor-reversed"):
+        cm = [j * m + i for i in range(m) for j in range(n)]
+        return kind, cm[::-1] if kind == "colmajor-reversed" else cm
+    if kind == "shuffled":
+        rng.shuffle(rm)
+    return kind, rm
+
+
 def gen_axis(rng, ncell: int, fam: str, origin: float):
     xs = [origin]
     for _ in range(ncell):
         xs.append(xs[-1] + rng.choice(STEP_FAMILIES[fam]))
     return xs
+
+
+def gen_occ(rng, ncells: int) -> list[float]:
+    """occupancy values: arbitrary, incl. all zero (module absent), all one, tiny (integer area 0)"""
+    r = rng.random()
+    if r < 0.08:
+        return [0.0] * ncells
+    if r < 0.12:
+        return [rng.choice([0.0, 1e-7, 1e-5]) for _ in range(ncells)]
+    if r < 0.16:
+        return [1.0] * ncells
+    return [rng.choice([0.0, 1.0, 0.5, 0.9, 0.25, round(rng.random(), 3)]) for _ in range(ncells)]
 
 
 def gen_grid_input(rng, m, n, k, fam=None, bound_mode=None, via=None):
@@ -601,13 +630,9 @@ def gen_grid_input(rng, m, n, k, fam=None, bound_mode=None, via=None):
     elif fam == "thirds" and rng.random() < 0.5:
         ox, oy = rng.choice([1 / 3, -2 / 3, 1e3 + 1 / 3, 0.0]), rng.choice([1 / 3, -1 / 7, 0.0, 12345.678])
     xs, ys = gen_axis(rng, m, fam, ox), gen_axis(rng, n, fam, oy)
-    order = list(range(m * n))
-    if rng.random() < 0.5:
-        rng.shuffle(order)
-    occ = [rng.choice([0.0, 1.0, 0.5, 0.9, 0.25, round(rng.random(), 3)]) for _ in range(m * n)]
-    t = rng.randrange(m * n)          # at least one cell clearly occupied: solve divides by the total occupied area
-    occ[t] = max(occ[t], 0.75)
-    ratio = rng.choice([2.0, 2.0, 3.0])
+    _, order = cell_order(rng, m, n)
+    occ = gen_occ(rng, m * n)
+    ratio = rng.choice([2.0, 2.0, 3.0, 1.0])
     inp = {"kind": "grid", "xs": xs, "ys": ys, "order": order, "occ": occ, "k": k, "ratio": ratio, "dif0": LOW,
            "family": fam + ("/origin0" if ox == 0 and oy == 0 else "/shifted"), "via": via}
     if bound_mode:
@@ -683,8 +708,8 @@ def run(ctx: Ctx) -> None:
     ctx.rule = ("product grids m×n of cells with coordinates origin + cumulative steps from 6 step families (unit, integer, "
                 "dyadic fractions incl. 2.5, decimal fractions, 'bigoffset' = steps .25/.5/.75 from origins ±1e5…±1e7 so that distinct "
                 "grid lines share their first 6+ significant digits, 'thirds' = steps 1/3, 2/3, 1/7 with 17-digit coordinates) and 9 "
-                "origins (0, positive, negative, fractional), cells in "
-                "row-major or shuffled order, occupancies in {0, 1, .5, .9, .25, random}, ratio 2 or 3, k boxes; the real "
+                "origins (0, positive, negative, fractional), cells listed "
+                "row-major / reversed / column-major / column-major reversed / shuffled, occupancies in {0, 1, .5, .9, .25, random} or all 0 / all 1 / tiny, ratio 1, 2 or 3, k boxes; the real "
                 "rect.solve is run with a cost bound (none / max achievable / max+1 / random achievable±1); part of the grids "
                 "go through rect_io.select_box (dyadic data). quick: every shape ≤ 3×3 with k ≤ 3 (5 grids per shape for k ≤ 2, "
                 "2 for k = 3), each with and without a cost bound, + 60 random ≤ 3×3 / 2×4 with bounds; thorough: every shape ≤ 3×3 "
@@ -693,8 +718,8 @@ def run(ctx: Ctx) -> None:
                 "(overlapping, degenerate, non-product) for the structure stream of enforce_bb/definecoords alone.  A grid "
                 "case is non-trivial when the grid has at least one k-box orthogon and more than one (box, cell) variable")
     ctx.assumptions += [
-        "min-error mode only (ratio >= 1, integer-valued: 2.0 = --minerr, 3.0 = --maxdiff); ratio > 1 and at least one cell "
-        "with non-zero occupancy (otherwise solve divides by zero when it computes the reported quality)",
+        "min-error mode only (ratio >= 1, integer-valued: 1.0 = --sf 1, 2.0 = --minerr, 3.0 = --maxdiff); occupancies are "
+        "arbitrary, including all zero (the reported quality, a float printed and returned third, is not part of the property)",
         "input_problem is a full product grid (every cell spans consecutive coordinates in x and in y and every combination is "
         "present); quad-tree-like allocations are outside the property (structure stream only)",
         "grid corners shared by neighbouring cells are equal as floats (select_box recomputes them as centre ± size/2: exact for "
@@ -738,14 +763,16 @@ def run(ctx: Ctx) -> None:
         inputs.append(inp)
     for _ in range(ctx.n(200, 1500)):
         inputs.append(gen_raw(rng))
-    for _ in range(ctx.n(20, 200)):
+    for _ in range(ctx.n(40, 300)):
         m, n = rng.randint(1, 4), rng.randint(1, 4)
         if m * n == 1:
             m = 3
+        pk, perm = cell_order(rng, m, n)
         inputs.append({"kind": "seam", "m": m, "n": n, "step": rng.choice([0.1, 0.3, 0.7, 0.05, 1.1, 0.5, 2.0]),
-                       "ox": rng.choice([0.0, 1.0, 0.2]), "oy": rng.choice([0.0, -1.0, 0.4]),
-                       "occ": [rng.choice([0.0, 1.0, 0.5, 0.9, round(rng.random(), 3)]) for _ in range(m * n)][:-1] + [0.6],
-                       "k": rng.choice([1, 2, 2]) if quick or m * n > 9 else rng.choice([1, 2, 3]), "ratio": rng.choice([2.0, 3.0])})
+                       "ox": rng.choice([0.0, 1.0, 0.2]), "oy": rng.choice([0.0, -1.0, 0.4]), "perm": perm, "perm_kind": pk,
+                       "occ": gen_occ(rng, m * n),
+                       "k": rng.choice([1, 2, 2]) if quick or m * n > 9 else rng.choice([1, 2, 3]),
+                       "ratio": rng.choice([2.0, 3.0, 1.0])})
     run_cases(ctx, inputs)
 
 
